@@ -63,6 +63,17 @@ CLAIMS = {
              "Cache.file_hash memoisation across compilations in one process, transitive_fingerprint's dependency walk, "
              "Inline._inline_key call sites (the key omits cython_compiler_directives), cache lookup/store I/O.",
         ref="4 C48"),
+    "C12": dict(
+        text="Item-level round trip of the string-table compressor, proved on the two real code fragments (located mechanically on every "
+             "run): whatever (offset, length) the emission branch of lzss_compress encodes, the bytes it appends decode under the shared "
+             "format spec to exactly (offset-length, length) and are consumed exactly - and the back-reference branch of the C "
+             "decompressor __pyx_lzss_decompress implements that format spec, copies from the right place, stays in bounds and never "
+             "overlaps (memcpy), for all byte values. Kernel: the per-item encode/decode pair of all three encodings plus literals.",
+        note="Trusted: dv front ends (fragment extraction drops the rest of both functions), z3, idiom lemmas, memcpy's C contract. ASSUMED, "
+             "not proved: find_longest_match returns a real match within the window (its postcondition is the fragment's precondition); "
+             "the flag-byte grouping and termination of both outer loops; zlib/bz2/zstd paths are CPython's. A native whole-compressor "
+             "round trip through the real C decompressor backs the replay.",
+        ref="4 C12"),
     "C50": dict(
         text="Proof of two data-structure kernels of the lexer engine: TransitionMap.split (binary search with insertion) against the "
              "class's representation invariant - loop invariant taken from the source comment, termination, field-exact postcondition "
